@@ -139,6 +139,14 @@ def jobs(tier):
                 if quick and not frozen and (kinds != ("v2c",) or len(names) == 3):
                     continue
                 name = "%s-%s-%s" % ("+".join(kinds), "+".join(names), "frozen-clock" if frozen else "counter-ids")
-                out.append(Job(name, make_harness(kinds, names, frozen, nsteps), [Arg(f"s{i}", 0, len(names) - 1) for i in range(nsteps)],
-                               timeout=600 if quick else 1500, mode="E/concolic-window", functions=funcs, sample_every=17))
+                heavy = len(names) == 3 and any(k != "v2c" for k in kinds)
+                parts = [(a, b) for a in range(3) for b in range(3)] if heavy else [None]
+                for part in parts:
+                    a = [Arg(f"s{i}", 0, len(names) - 1) for i in range(nsteps)]
+                    pname = name
+                    if part is not None:
+                        a[0], a[1] = Arg("s0", part[0], part[0]), Arg("s1", part[1], part[1])
+                        pname = name + "-first%d%d" % part
+                    out.append(Job(pname, make_harness(kinds, names, frozen, nsteps), a,
+                                   timeout=600 if quick else 1500, mode="E/concolic-window", functions=funcs, sample_every=17))
     return out
